@@ -323,3 +323,138 @@ def reduce_to_alditol(smi):
 def formula_of(smi):
     m = mol(smi)
     return rdMolDescriptors.CalcMolFormula(m) if m is not None else None
+
+
+def _numbered(smi):
+    m = mol(smi)
+    if m is None:
+        return None, None
+    return m, number_carbons(m)
+
+
+def _finish(w):
+    try:
+        Chem.SanitizeMol(w)
+    except Exception:
+        return None
+    return Chem.MolToSmiles(Chem.MolFromSmiles(Chem.MolToSmiles(w)))
+
+
+def op_uronic(smi):
+    """terminal CH2OH of the main chain -> COOH; nothing else changes"""
+    m, num = _numbered(smi)
+    if num is None:
+        return None
+    inv = {v: k for k, v in num.items()}
+    c = m.GetAtomWithIdx(inv[max(inv)])
+    oh = [x for x in c.GetNeighbors() if x.GetSymbol() == "O" and x.GetDegree() == 1]
+    if len(oh) != 1 or c.GetTotalNumHs() != 2:
+        return None
+    w = Chem.RWMol(m)
+    o = w.AddAtom(Chem.Atom(8))
+    w.AddBond(c.GetIdx(), o, Chem.BondType.DOUBLE)
+    return _finish(w)
+
+
+def op_deoxy(smi, n):
+    """remove the oxygen on carbon n (the carbon keeps everything else and stops being a stereocentre)"""
+    m, num = _numbered(smi)
+    if num is None:
+        return None
+    h = hetero_on(m, num, n)
+    if h is None or m.GetAtomWithIdx(h).GetDegree() != 1:
+        return None
+    inv = {v: k for k, v in num.items()}
+    w = Chem.RWMol(m)
+    c = w.GetAtomWithIdx(inv[n])
+    c.SetChiralTag(Chem.ChiralType.CHI_UNSPECIFIED)
+    c.SetNoImplicit(False)
+    c.SetNumExplicitHs(0)
+    w.RemoveAtom(h)
+    return _finish(w)
+
+
+def op_amino(smi, n):
+    """the hydroxyl on carbon n becomes an amine, in place"""
+    m, num = _numbered(smi)
+    if num is None:
+        return None
+    h = hetero_on(m, num, n)
+    if h is None or m.GetAtomWithIdx(h).GetSymbol() != "O" or m.GetAtomWithIdx(h).GetDegree() != 1:
+        return None
+    w = Chem.RWMol(m)
+    w.GetAtomWithIdx(h).SetAtomicNum(7)
+    return _finish(w)
+
+
+def op_epimer(smi, n):
+    m, num = _numbered(smi)
+    if num is None:
+        return None
+    inv = {v: k for k, v in num.items()}
+    if n not in inv or m.GetAtomWithIdx(inv[n]).GetChiralTag() == Chem.ChiralType.CHI_UNSPECIFIED:
+        return None
+    w = Chem.RWMol(m)
+    w.GetAtomWithIdx(inv[n]).InvertChirality()
+    return _finish(w)
+
+
+def op_anhydro(smi, x, y):
+    """x,y-anhydro: the oxygen on carbon x takes the place of the oxygen on carbon y (one water lost, one ring more)"""
+    m, num = _numbered(smi)
+    if num is None:
+        return None
+    ox, oy = hetero_on(m, num, x), hetero_on(m, num, y)
+    if ox is None or oy is None or ox == oy:
+        return None
+    if m.GetAtomWithIdx(ox).GetDegree() != 1 or m.GetAtomWithIdx(oy).GetDegree() != 1:
+        return None
+    w = Chem.RWMol(m)
+    a = w.GetAtomWithIdx(oy)
+    a.SetAtomicNum(0)
+    a.SetAtomMapNum(1)
+    a.SetNoImplicit(True)
+    a.SetNumExplicitHs(0)
+    d = w.AddAtom(Chem.Atom(0))
+    w.GetAtomWithIdx(d).SetAtomMapNum(1)
+    w.AddBond(ox, d, Chem.BondType.SINGLE)
+    try:
+        z = Chem.molzip(w.GetMol())
+    except Exception:
+        return None
+    return _finish(Chem.RWMol(z))
+
+
+def op_onic(smi, both_ends=False):
+    """aldonic (aldaric) acid: ring opened, C1 (and the terminal carbon) oxidised to COOH; other centres kept"""
+    m = mol(smi)
+    if m is None:
+        return None
+    ac = anomeric_carbon(m)
+    num = number_carbons(m)
+    if ac is None or num is None:
+        return None
+    c, o = ac
+    if num.get(c) != 1:
+        return None
+    w = Chem.RWMol(m)
+    w.RemoveBond(c, o)
+    w.GetAtomWithIdx(c).SetChiralTag(Chem.ChiralType.CHI_UNSPECIFIED)
+    for i in (c, o):
+        w.GetAtomWithIdx(i).SetNoImplicit(False)
+        w.GetAtomWithIdx(i).SetNumExplicitHs(0)
+    n = w.AddAtom(Chem.Atom(8))
+    w.AddBond(c, n, Chem.BondType.DOUBLE)
+    if both_ends:
+        inv = {v: k for k, v in num.items()}
+        t = m.GetAtomWithIdx(inv[max(inv)])
+        if t.GetTotalNumHs() != 2 or not any(x.GetSymbol() == "O" and x.GetDegree() == 1 for x in t.GetNeighbors()):
+            return None
+        n2 = w.AddAtom(Chem.Atom(8))
+        w.AddBond(t.GetIdx(), n2, Chem.BondType.DOUBLE)
+    return _finish(w)
+
+
+def main_chain_length(smi):
+    m, num = _numbered(smi)
+    return len(num) if num else None
